@@ -2,6 +2,7 @@
 import JumanjiModel.Bridge.Json
 import JumanjiModel.Env.Knapsack.Model
 import JumanjiModel.Env.Knapsack.Bounds
+import JumanjiModel.Env.Knapsack.Spec
 import JumanjiModel.Prim.Float
 open Lean Jb
 
@@ -92,7 +93,11 @@ def opInstance : Op := fun j => do
               ("values_in_unit", jBool (inUnit s.values)),
               ("nothing_packed", jBool (decide (s.packed = List.replicate n false))),
               ("budget_is_total", jBool (decide (s.remaining = b'))),
-              ("instance_ok", jBool (instanceOK n b' s))])
+              ("instance_ok", jBool (instanceOK n b' s)),
+              -- wave 3 (C01): the invariant behind `knapsack_step_obs_valid`, and membership of the reset observation in the
+              -- symbolic `obsSpec n` (shapes as functions of the configuration), on the implementation's reset state
+              ("spec_inv", jBool (decide (SpecInv n s))),
+              ("reset_obs_in_spec", jBool ((obsSpec n).valid (toNValue (observe s))))])
 
 def ops : List (String × Op) :=
   [("knapsack.step", opStep), ("knapsack.state", opState), ("knapsack.judge", opJudge),
